@@ -102,6 +102,8 @@ func parseTrace(path, outDir, workDir, markerPath string, gz bool) (*traceResult
 	pendingArgs := map[string]string{} // pid -> "syscall\x00args"
 	gzbuf := map[string][]byte{}       // path -> bytes not yet part of a complete member
 	var markerBuf []byte
+	rawPaths := map[string]bool{}
+	pendingTouch := ""
 
 	classify := func(p string) (string, string, bool) {
 		if strings.HasPrefix(p, outDir+"/") {
@@ -149,6 +151,12 @@ func parseTrace(path, outDir, workDir, markerPath string, gz bool) (*traceResult
 			}
 			op := obsOp{Kind: "create", Dir: d, Name: n, Excl: strings.Contains(args, "O_EXCL"),
 				Append: strings.Contains(args, "O_APPEND"), Trunc: strings.Contains(args, "O_TRUNC")}
+			if p == pendingTouch {
+				pendingTouch = ""
+				if rv >= 0 {
+					rawPaths[p] = true
+				}
+			}
 			if rv >= 0 {
 				op.OK = true
 				fds[rv] = &fdInfo{path: p}
@@ -190,6 +198,9 @@ func parseTrace(path, outDir, workDir, markerPath string, gz bool) (*traceResult
 					dec.UseNumber()
 					if dec.Decode(&m) == nil {
 						res.Markers = append(res.Markers, m)
+						if m["m"] == "TOUCHING" {
+							pendingTouch = fmt.Sprint(m["path"]) // the foreign file written by the hook itself is plain text
+						}
 						if m["m"] == "FIN" {
 							id, _ := strconv.Atoi(fmt.Sprint(m["id"]))
 							res.Ops = append(res.Ops, obsOp{Kind: "fin", ID: id})
@@ -203,7 +214,7 @@ func parseTrace(path, outDir, workDir, markerPath string, gz bool) (*traceResult
 			if !ok {
 				return
 			}
-			if gz {
+			if gz && !rawPaths[fi.path] {
 				buf := append(gzbuf[fi.path], data...)
 				ms, used := completeMembers(buf)
 				for _, mdata := range ms {
